@@ -455,6 +455,35 @@ func runExt4Case(prop string, c core.Case, env *core.Env) core.Result {
 			drv.CloseAll()
 			reopenCmp()
 		}
+	case "bigwrite":
+		// single Write calls that need more new blocks than one block group has free, so that one
+		// allocation request is served from several groups; sizes in units of a group's data capacity
+		drv.Light = true
+		grp := 8 * bs * bs // bytes covered by one block bitmap
+		if cfg.BPG > 0 {
+			grp = int(cfg.BPG) * bs
+		}
+		for i, n := range []int{grp + grp/3, 2*grp + 4097, grp - 3*bs, 3 * bs} {
+			p := fmt.Sprintf("big%d.bin", i)
+			if !step(fsdrive.Op{Kind: "write", Path: p, Len: n, DSeed: uint64(7000 + i)}) {
+				return res
+			}
+			if i == 1 && !step(fsdrive.Op{Kind: "remove", Path: "big0.bin"}) {
+				return res
+			}
+		}
+		if !step(fsdrive.Op{Kind: "append", Path: "big3.bin", Len: grp + grp/2, DSeed: 7100}) {
+			return res
+		}
+		res.Mark("single writes larger than a block group")
+		if !drv.Diverged {
+			drv.Light = false
+			drv.CloseAll()
+			if prop == "C04" {
+				drv.Compare(fs, "live", nil)
+			}
+			reopenCmp()
+		}
 	case "stalegap":
 		// free space that holds old non-zero data (files written and removed), then small files whose
 		// next write starts behind their end: inside the block they already own, at its last byte, in
